@@ -201,6 +201,12 @@ def main(argv=None):
         if hasattr(mod, "selftest"):
             mod.selftest()
         tasks = mod.tasks(tier)
+        if tier == "thorough":
+            # deeper exploration: every seed-dependent task is repeated under further derived seeds (the task name feeds the seed derivation);
+            # tasks whose name matches the module's DETERMINISTIC pattern enumerate a fixed domain and run once
+            reps = int(os.environ.get("VPCHK_THOROUGH_REPS", getattr(mod, "THOROUGH_REPS", 1)))
+            det = re.compile(getattr(mod, "DETERMINISTIC", r"$^"))
+            tasks = tasks + [dict(t, name=f"{t['name']}#r{r}") for r in range(1, reps) for t in tasks if not det.search(t["name"])]
     except HarnessError as e:
         print(f"HARNESS-ERROR property={prop} {e}")
         return 2
